@@ -1279,7 +1279,13 @@ def dict_new(run, clsv, *a, **kw):
 @method(dict, "__init__")
 def dict_init(run, self, src=None, **kw):
     if src is not None:
-        if isinstance(src, VDict):
+        if isinstance(src, VNative) and type(src.obj) is dict:
+            ov = run.native_overlay.get(id(src.obj), {})
+            self.pairs = [[_se().lift(k), (ov[k] if k in ov else _se().lift(v))] for k, v in src.obj.items()]
+            for k, v in ov.items():
+                if k not in src.obj:
+                    self.pairs.append([_se().lift(k), v])
+        elif isinstance(src, VDict):
             for k, v in list(src.pairs):
                 run.dict_set(self, k, v)
         else:
